@@ -3,8 +3,10 @@
 (1) Parser.tla transcribes the loop of LayersDecoder/DecodeLayers over decoder scripts (Packet.tla style) and a
     container set S; TLC checks ParserResult(script, S) conforms to LeadingRun(EagerResult(script), S) for every
     script and every S within the bound and exports the (script, S) pairs.  The driver replays them with scripted
-    DecodingLayers through DecodingLayerMap / Sparse / Array / a custom container (x IgnoreUnsupported x cold /
-    warm parser / non-empty `decoded` slice) and through gopacket.NewPacket with the equivalent Decoders;
+    DecodingLayers through DecodingLayerMap / Sparse / Array / a custom container (x IgnoreUnsupported x five
+    constructions: container filled by Put and installed - cold, after a truncated packet, with a non-empty `decoded`
+    slice -, empty container installed and AddDecodingLayer in the order of a construction plan, layers added after
+    a decode; ParserBuild.tla enumerates the plans) and through gopacket.NewPacket with the equivalent Decoders;
     ParserTrace.tla judges parser-vs-packet (verdict) and parser-vs-model (drift, no verdict).
 (2) Real layers: fixtures and structural mutations, entered at every layer of the common stack, decoded by
     NewPacket(DecodeStreamsAsDatagrams) and by parsers over seeded subsets of {Ethernet, Dot1Q, IPv4, IPv6, TCP, UDP,
@@ -80,6 +82,12 @@ def part_scripted(ctx, binp, wd):
     subst = {r"MaxScript = \d+": "MaxScript = %d" % ms}
     if quick:
         subst[r"Steps <- MC_Steps"] = "Steps <- MC_StepsQuick"
+    # construction plans (ParserBuild.tla): every order of AddDecodingLayer calls over every subset of the 4 types,
+    # with a decode after every possible prefix; each (script, S) pair is replayed under one plan for S, in rotation
+    plans, pg = _tlc_beh("ParserBuildGen", os.path.join(wd, "plans-gen"), None, workers=2)
+    plans.sort()
+    pp = os.path.join(wd, "plans.ndjson")
+    open(pp, "w").write("\n".join(plans) + "\n")
     scen, mc = _tlc_beh("ParserMC", os.path.join(wd, "mc"), subst, workers=4 if quick else 8)
     log("[C05] Parser.tla exhaustive (scripts <= %d over %d step codes, 16 container sets): %d distinct states, %d (script, S) pairs in %.1fs"
         % (ms, 9 if quick else 13, mc.distinct, len(scen), mc.wall))
@@ -103,7 +111,7 @@ def part_scripted(ctx, binp, wd):
         sp = os.path.join(wd, "scr-%d.scen" % k)
         open(sp, "w").write("\n".join(part) + "\n")
         tp = os.path.join(wd, "scr-%d.ndjson" % k)
-        st = _drive(binp, ["-mode", "script", "-scenarios", sp, "-trace", tp])
+        st = _drive(binp, ["-mode", "script", "-scenarios", sp, "-plans", pp, "-trace", tp])
         total += st["scenarios"]
         files.append(tp)
     res = _validate_many("ParserTrace", files, 2 if quick else 5, "6g")
@@ -111,7 +119,7 @@ def part_scripted(ctx, binp, wd):
     with open(files[0]) as f:
         samples = [json.loads(next(f)) for _ in range(2)]
     log("[C05] part 1 done in %.1fs (TLC %.1fs)" % (time.time() - t0, mc.wall))
-    return {"mc": mc, "pairs_exported": exported, "replayed": total, "bad": bad, "cnt": cnt,
+    return {"mc": mc, "plans": len(plans), "plans_gen": pg, "plans_file": pp, "pairs_exported": exported, "replayed": total, "bad": bad, "cnt": cnt,
             "lines": lines, "tstates": states, "samples": samples, "files": files, "max_script": ms}
 
 
@@ -290,7 +298,7 @@ def selftest(ctx, binp, wd, files, main_cnt):
         if not os.path.exists(msp):
             open(msp, "w").writelines(stride(files["scen"], 600))
         tp = os.path.join(wd, "st-mut%d.ndjson" % m[0])
-        _drive(binp, ["-mode", "script", "-scenarios", msp, "-mutant", str(m[0]), "-trace", tp])
+        _drive(binp, ["-mode", "script", "-scenarios", msp, "-plans", files["plans"], "-mutant", str(m[0]), "-trace", tp])
         v = _validate("ParserTrace", tp, "st-mut%d" % m[0], "2g")
         got = sum(v["cnt"].get(r, 0) for r in m[1])
         return "mutant%d" % m[0], got >= 1, "harness-side mutant (%s): %d rejections" % (m[2], got)
@@ -327,7 +335,7 @@ def run(ctx):
         fr = ex.submit(part_real, ctx, binp, wd)
         ft = ex.submit(part_stale, ctx, binp, wd)
         S, R, T = fs.result(), fr.result(), ft.result()
-    log("[C05] scripted: %d pairs replayed x 24 parser runs each, rejected %s" % (S["replayed"], {k: v for k, v in S["cnt"].items() if v}))
+    log("[C05] scripted: %d pairs replayed x 48 parser runs each (4 containers x 5 constructions x IgnoreUnsupported + 8 mid-construction), rejected %s" % (S["replayed"], {k: v for k, v in S["cnt"].items() if v}))
     log("[C05] real layers: %d inputs, %d events, rejected %s" % (R["cases"], R["events"], {k: v for k, v in R["cnt"].items() if v}))
     log("[C05] stale state: %d sequences x 7 entry layers x %d pool draws, rejected %s" % (T["sequences"], T["rounds"], {k: v for k, v in T["cnt"].items() if v}))
 
@@ -359,7 +367,8 @@ def run(ctx):
                       "explain": "cmd/parser -mode explain -first <first> <hex>..."})
 
     t1 = time.time()
-    st = selftest(ctx, binp, wd, {"scr": S["files"][0], "real": R["files"][0], "stale": T["files"][0], "scen": os.path.join(wd, "scr-0.scen")},
+    st = selftest(ctx, binp, wd, {"scr": S["files"][0], "real": R["files"][0], "stale": T["files"][0], "scen": os.path.join(wd, "scr-0.scen"),
+                                   "plans": S["plans_file"]},
                   {"scr": S["cnt"], "real": R["cnt"]})
     log("[C05] self-tests took %.1fs" % (time.time() - t1))
     rc = V.finish()
@@ -371,11 +380,12 @@ def run(ctx):
     else:
         log("[C05] binding self-tests passed: %s" % ", ".join(x["test"] for x in st))
     mc, g = S["mc"], T["gen"]
-    cov = {"states": mc.distinct + g.distinct + S["tstates"] + R["tstates"] + T["tstates"],
+    cov = {"states": mc.distinct + g.distinct + S["plans_gen"].distinct + S["tstates"] + R["tstates"] + T["tstates"],
            "transitions": mc.generated + g.generated,
            "model_states_exhaustive": mc.distinct, "max_script": S["max_script"], "container_sets": 16,
            "traces_validated_against_impl": S["replayed"] + R["events"] + T["replayed"],
-           "scripted_pairs_exported": S["pairs_exported"], "scripted_pairs_replayed": S["replayed"], "parser_runs_per_pair": 24,
+           "scripted_pairs_exported": S["pairs_exported"], "scripted_pairs_replayed": S["replayed"], "parser_runs_per_pair": 48,
+           "construction_plans": S["plans"], "real_parser_runs_per_event": 20,
            "real_inputs": R["cases"], "real_events": R["events"], "real_first_layer": R["first_layer"],
            "real_parser_outcomes": R["parser_outcomes"], "real_events_with_2plus_decoded_layers": R["events_with_2plus_decoded"],
            "real_subsets_used": R["subsets_used"],
